@@ -213,6 +213,29 @@ func properSubset(a, b []string) bool {
 	return true
 }
 
+// diamondConfigs are the configurations of the diamond-of-invocations program:
+// the local default (baseline) and clusters of machines x task procs = 1x2
+// (control: one machine), 2x1, 3x1, 3x2, with Parallelism = machines x procs.
+func diamondConfigs() []Config {
+	out := []Config{defaultConfig("local")}
+	base := defaultConfig("vsys")
+	for _, mk := range [][2]int{{1, 2}, {2, 1}, {3, 1}, {3, 2}} {
+		m, k := mk[0], mk[1]
+		var devs []deviation
+		if m != base.Machines {
+			devs = append(devs, deviation{"machines", fmt.Sprintf("machines=%d", m), func(c *Config) { c.Machines = m }})
+		}
+		if k == 1 {
+			devs = append(devs, deviation{"procs", "procs=2", func(c *Config) { c.Procs = 2 }})
+		}
+		if m*k != base.Par {
+			devs = append(devs, deviation{"par", fmt.Sprintf("par=%d", m*k), func(c *Config) { c.Par = m * k }})
+		}
+		out = append(out, derive(base, devs...))
+	}
+	return out
+}
+
 // stressConfigs are the configurations of the Stress programs (both tiers):
 // the local default (baseline), and on the cluster machines{2,3} x task procs
 // per machine{1,2} x MachineCombiners{off,on}. Task procs 1 = 2 procs at
